@@ -294,6 +294,53 @@ fn check_columns(base: usize, cycles: &[usize], n: usize, e: usize, s: &mut Swee
     }
 }
 
+
+/// Contexts with several main-segment degrees and auxiliary-segment degrees: the composition
+/// columns must hold the quotient of the highest-degree constraint of EITHER segment.
+fn check_columns_multi(main: &[usize], aux: &[usize], n: usize, s: &mut Sweep) {
+    let rp = json!({"kind": "columns_multi", "main": main, "aux": aux, "n": n});
+    let key = format!("main degrees {main:?} aux degrees {aux:?} n={n}");
+    type B = f64::BaseElement;
+    s.evals += 1;
+    s.nontrivial += 1;
+    let md: Vec<TransitionConstraintDegree> = main.iter().map(|b| TransitionConstraintDegree::new(*b)).collect();
+    let ad: Vec<TransitionConstraintDegree> = aux.iter().map(|b| TransitionConstraintDegree::new(*b)).collect();
+    let blowup = md.iter().chain(ad.iter()).map(|d| d.min_blowup_factor()).max().unwrap();
+    let eval_degree = main.iter().chain(aux.iter()).map(|b| eval_degree_formula(*b, &[], n)).max().unwrap();
+    let ctx = match mck::catch(|| {
+        if ad.is_empty() {
+            AirContext::<B>::new(TraceInfo::new(1, n), md.clone(), 1, options(blowup))
+        } else {
+            AirContext::<B>::new_multi_segment(TraceInfo::new_multi_segment(1, 1, 1, n, vec![]), md.clone(), ad.clone(), 1, 1, options(blowup))
+        }
+    }) {
+        Ok(c) => c,
+        Err(p) => return s.fail(format!("panic:AirContext::new_multi_segment:{}", p.location), key, format!("constructor panicked with blowup {blowup}: {}", p.message), rp),
+    };
+    let e = ctx.num_transition_exemptions();
+    let composition_degree = (eval_degree + e) as i64 - n as i64;
+    if composition_degree < 0 {
+        return;
+    }
+    let cols = match mck::catch(|| ctx.num_constraint_composition_columns()) {
+        Ok(c) => c,
+        Err(p) => return s.fail(format!("panic:AirContext::num_constraint_composition_columns:{}", p.location), key, p.message, rp),
+    };
+    let needed = ((composition_degree as usize + 1) + n - 1) / n;
+    if cols * n < composition_degree as usize + 1 {
+        s.fail(
+            "too_few_columns:AirContext::num_constraint_composition_columns",
+            key,
+            format!("highest constraint degree {eval_degree} (main {main:?}, aux {aux:?}), divisor degree {} => composition polynomial of degree {composition_degree} has {} coefficients, but num_constraint_composition_columns() = {cols} columns of {n} hold only {}; {needed} are needed", n - e, composition_degree + 1, cols * n),
+            rp,
+        );
+    } else if cols == needed.max(1) {
+        s.count("multi-degree context: column count exactly sufficient");
+    } else {
+        s.count("multi-degree context: column count more than sufficient");
+    }
+}
+
 // PERIODIC COLUMNS
 // ------------------------------------------------------------------------------------------------
 
@@ -360,6 +407,10 @@ fn replay(args: &Args, v: &Value) -> ! {
         Some("columns") => {
             println!("base {} cycles {:?} n {} exemptions {}", u("base"), cycles, u("n"), u("exemptions"));
             check_columns(u("base"), &cycles, u("n"), u("exemptions"), &mut s)
+        },
+        Some("columns_multi") => {
+            let l = |k: &str| -> Vec<usize> { v[k].as_array().map(|a| a.iter().map(|x| x.as_u64().unwrap() as usize).collect()).unwrap_or_default() };
+            check_columns_multi(&l("main"), &l("aux"), u("n"), &mut s)
         },
         Some("periodic") => {
             let (n, p) = (u("n"), u("pattern"));
@@ -474,6 +525,26 @@ pub fn run(args: &Args) {
         s
     }));
     merge_all(parts).into_report("composition columns: base 1..=16 x sorted cycle lists <= 3 x n x exemptions 0..=n/2+2 (blowup = min_blowup_factor)", json!({}), &mut report);
+
+    // 3b. several degrees per segment and auxiliary-segment degrees: all lists of 1..2 main degrees and
+    // 0..2 auxiliary degrees over 1..=8 (every position of the maximum)
+    let mut sm = Sweep::new();
+    let degs: Vec<usize> = (1..=8).collect();
+    let mut lists: Vec<Vec<usize>> = vec![vec![]];
+    for a in &degs {
+        lists.push(vec![*a]);
+        for b in &degs {
+            lists.push(vec![*a, *b]);
+        }
+    }
+    for &n in &[8usize, 16, 64] {
+        for m in lists.iter().filter(|l| !l.is_empty()) {
+            for a in &lists {
+                check_columns_multi(m, a, n, &mut sm);
+            }
+        }
+    }
+    sm.into_report("composition columns: contexts with 1..2 main and 0..2 auxiliary transition degrees over 1..=8 (n = 8, 16, 64; default exemptions)", json!({}), &mut report);
 
     // 4. periodic columns
     let pns: Vec<usize> = if thorough { vec![8, 16, 32, 64, 128, 256, 512, 1024] } else { vec![8, 16, 32, 64, 128] };
